@@ -344,10 +344,20 @@ unsafe fn write_all_sub_paths(
     }
     // Then the directory itself, through the original pointer,
     // we know the actual length is len + 1 and null terminated
-    forgive_exists(rusl::unistd::mkdir(
-        UnixStr::from_bytes_unchecked(core::slice::from_raw_parts(raw, len + 1)),
-        Mode::from(0o755),
-    ))
+    let full = UnixStr::from_bytes_unchecked(core::slice::from_raw_parts(raw, len + 1));
+    match rusl::unistd::mkdir(full, Mode::from(0o755)) {
+        Err(e) if e.code == Some(Errno::EEXIST) => {
+            // Something is already there, only a directory will do
+            // (an ancestor that isn't one has already failed with `ENOTDIR`)
+            let stat = rusl::unistd::stat(full)?;
+            if Mode::from(stat.st_mode) & Mode::S_IFMT == Mode::S_IFDIR {
+                Ok(())
+            } else {
+                Err(e)
+            }
+        }
+        other => other,
+    }
 }
 
 /// A directory that is already there is what `create_dir_all` wants
